@@ -96,6 +96,12 @@ class Ctx:
     def selftest(self, name: str, ok: bool, detail: str = "") -> None:
         self.selftests.append({"name": name, "ok": ok, "detail": detail})
         if not ok:
+            if self.violations:
+                # The tree under test already violates the property: the histories the self-test corrupts may themselves be
+                # rejected, so its expectation does not apply.  The verdict of this run is VIOLATION (exit 1), not a
+                # machinery failure; on a tree without violations a failing self-test is still fatal (exit 2).
+                self.selftests[-1]["detail"] = "inconclusive (violations present): " + detail[:300]
+                return
             raise MachineryError(f"binding self-test failed: {name}: {detail}")
 
     # ---- violations ----------------------------------------------------------------------
